@@ -166,6 +166,8 @@ typedef struct {
   int dchg;          /* characters of the displayed memory changed since the last comparison */
   unsigned used[2];  /* rows of m[0], m[1] that may hold something (superset; concrete when the rows of the sequence are) */
   rpen pen;
+  int ambcol[2][15]; /* EIA 608-B C.7: cells of the row from this column on may have adopted other attributes (a character
+                        was stored to their left while they existed); 33 = none.  Conservative: stays until the memory is erased */
   uint32_t m[2][15][32];
 } rchan;
 static rchan RC, RT;          /* caption channel CH, text channel CH + 4 */
@@ -190,6 +192,7 @@ static void r_erase(rchan *t, int k)
   for (r = 0; r < 15; r++) for (c = 0; c < 32; c++) { if (k) { ne |= CU(t->m[1][r][c]); t->m[1][r][c] = 0; } else { ne |= CU(t->m[0][r][c]); t->m[0][r][c] = 0; } }
   if (k == t->disp) { t->dchg |= (ne != 0); t->rows |= k ? t->used[1] : t->used[0]; }
   if (k) t->used[1] = 0; else t->used[0] = 0;
+  for (r = 0; r < 15; r++) { if (k) t->ambcol[1][r] = 33; else t->ambcol[0][r] = 33; }
 }
 static int r_mem_empty(const rchan *t, int k)
 { int r, c; unsigned e = 1; for (r = 0; r < 15; r++) for (c = 0; c < 32; c++) e &= ((k ? t->m[1][r][c] : t->m[0][r][c]) == 0); return (int) e; }
@@ -206,6 +209,7 @@ static void r_init(void)
   RC.mode = RM_NONE; RC.roll = 3; RC.base = 14; RC.row = 14; RC.col = 1; r_pen_default(&RC.pen);
   RT.mode = RM_TEXT; RT.row = 0; RT.col = 1; r_pen_default(&RT.pen);
   r_cur = 0; r_last_valid = 0; r_gap = 0;
+  { int k_, r_; for (k_ = 0; k_ < 2; k_++) for (r_ = 0; r_ < 15; r_++) { RC.ambcol[k_][r_] = 33; RT.ambcol[k_][r_] = 33; } }
 }
 
 /* 47 CFR 15.119 (g) character set: ASCII with ten substitutions; special characters 0x30..0x3F */
@@ -241,10 +245,10 @@ static void r_put(rchan *t, unsigned uc, unsigned cell_amb)
 #endif
   V_ASSUME(!t->cur_amb);
   /* EIA 608-B C.7: characters to the right of an overwritten position may adopt other attributes */
-  for (c = 1; c <= 32; c++) if (c > t->col) {
-    if (k) { if (CU(t->m[1][t->row][c - 1])) t->m[1][t->row][c - 1] |= (A_FGUI | A_FL) << 27; }
-    else { if (CU(t->m[0][t->row][c - 1])) t->m[0][t->row][c - 1] |= (A_FGUI | A_FL) << 27; }
-  }
+  { unsigned any = 0;
+    for (c = 1; c <= 32; c++) any |= (unsigned) (c > t->col) & (CU(k ? t->m[1][t->row][c - 1] : t->m[0][t->row][c - 1]) != 0);
+    if (any) { if (k) { if (t->ambcol[1][t->row] > t->col + 1) t->ambcol[1][t->row] = t->col + 1; }
+               else { if (t->ambcol[0][t->row] > t->col + 1) t->ambcol[0][t->row] = t->col + 1; } } }
   if (uc) r_set(t, k, t->row, t->col, r_mk(&t->pen, uc) | (cell_amb << 27));
   else r_set(t, k, t->row, t->col, 0);
   if (t->col < 32) t->col++; else t->full = 1;                       /* (f)(1)(v): stays in column 32 */
@@ -340,6 +344,8 @@ static void r_cr(rchan *t)
     int top = (t->mode == RM_TEXT) ? 0 : t->base - t->roll + 1;
     for (r = 0; r < 14; r++) for (c = 0; c < 32; c++) if (r >= top && r < t->row) { t->dchg |= (CU(t->m[k][r][c]) != CU(t->m[k][r + 1][c])); t->m[k][r][c] = t->m[k][r + 1][c]; }   /* (f)(1)(iii) */
     for (r = 0; r < 15; r++) for (c = 0; c < 32; c++) if (r == t->row) { t->dchg |= (CU(t->m[k][r][c]) != 0); t->m[k][r][c] = 0; }
+    for (r = 0; r < 14; r++) if (r >= top && r < t->row) t->ambcol[k][r] = t->ambcol[k][r + 1];
+    for (r = 0; r < 15; r++) if (r == t->row) t->ambcol[k][r] = 33;
     for (r = 0; r < 15; r++) if (r >= top && r <= t->row) { t->rows |= 1u << r; t->used[k] |= 1u << r; }
   }
   t->col = 1; t->full = 0; t->lag = 0;
@@ -375,7 +381,8 @@ static void r_pac(rchan *t, unsigned c1, unsigned c2)
 #else
       { static uint32_t tmp[15][32]; int r, d = nb - t->base, k = t->disp;             /* (f)(1)(ii): window moves intact */
         for (r = 0; r < 15; r++) for (c = 0; c < 32; c++) tmp[r][c] = t->m[k][r][c];
-        for (r = 0; r < 15; r++) for (c = 0; c < 32; c++) { uint32_t v = 0; int s; for (s = 0; s < 15; s++) if (s == r - d) v = tmp[s][c]; t->m[k][r][c] = v; } }
+        for (r = 0; r < 15; r++) for (c = 0; c < 32; c++) { uint32_t v = 0; int s; for (s = 0; s < 15; s++) if (s == r - d) v = tmp[s][c]; t->m[k][r][c] = v; }
+        for (r = 0; r < 15; r++) t->ambcol[k][r] = 1; }
 #endif
       t->base = nb;
     }
@@ -586,7 +593,7 @@ static void compare_page(rchan *t, int which, unsigned rows)
     for (c = 0; c < COLUMNS; c++) {
       w = roww[c];
       L = LIB_PACK_W(w); Rv = Dv[c]; x = L ^ Rv;
-      lop = W_OPACITY(w); amb = Rv >> 27;
+      lop = W_OPACITY(w); amb = (Rv >> 27) | ((c >= (t->disp ? t->ambcol[1][r] : t->ambcol[0][r])) ? (A_FGUI | A_FL) : 0);
       nb = (c > 0 ? CU(Dv[c - 1]) : 0) | (c < COLUMNS - 1 ? CU(Dv[c + 1]) : 0);
       e = (CU(Rv) == 0);
       ok_wf &= (unsigned) W_WELLFORMED(w);
@@ -627,6 +634,46 @@ static void compare_page(rchan *t, int which, unsigned rows)
 }
 
 /* ======================================================================================================
+ * 3b. representation invariant and frame (CBMC's bounds checks on ch->line[..] only check against the end of the
+ *     enclosing decoder object, so a write past the 15 x 34 cells or before text[0] would pass silently)
+ * ====================================================================================================== */
+static void check_channel(int idx)
+{
+  const cc_channel *c = &VBI.cc.channel[idx];
+  int h = c->hidden, p;
+  V_ASSERT(h == 0 || h == 1, "inv_hidden");
+  V_ASSERT(c->col1 >= 1 && c->col1 <= c->col && c->col <= COLUMNS - 1, "inv_cursor_column");
+  V_ASSERT(c->row >= 0 && c->row <= ROWS - 1, "inv_cursor_row");
+  V_ASSERT(c->line == (h ? c->pg[1].text : c->pg[0].text) + c->row * COLUMNS, "inv_line_points_to_cursor_row");
+  V_ASSERT((unsigned) c->mode <= MODE_TEXT && (c->mode == MODE_TEXT) == (idx >= 4), "inv_mode");
+  V_ASSERT(idx >= 4 ? (c->roll == ROWS && c->row1 == 0) : (c->roll >= 2 && c->roll <= 4 && c->row1 >= 0 && c->row1 + c->roll - 1 <= ROWS - 1), "inv_window");
+  V_ASSERT(c->nul_ct >= 0, "inv_nul_ct");
+  for (p = 0; p < 2; p++) {
+    const vbi_page *pg = &c->pg[p];
+    /* members right before and after text[]: a store to line[-1] or past the array would land here */
+    V_ASSERT(pg->vbi == &VBI && pg->pgno == idx + 1 && pg->subno == 0 && pg->rows == ROWS && pg->columns == COLUMNS, "frame_page_header");
+    V_ASSERT(pg->dirty.y0 >= 0 && pg->dirty.y0 <= ROWS && pg->dirty.y1 >= -1 && pg->dirty.y1 <= ROWS - 1 && pg->dirty.roll >= -ROWS && pg->dirty.roll <= ROWS, "frame_dirty_range");
+    V_ASSERT(pg->screen_color == 0 && pg->screen_opacity == ((idx < 4) ? VBI_TRANSPARENT_SPACE : VBI_OPAQUE)
+             && pg->font[0] == vbi_font_descriptors && pg->font[1] == vbi_font_descriptors, "frame_page_trailer");
+  }
+}
+/* the 34 cells after the 15 rows (a 16th row inside text[1056]) of both pages are never written */
+static void check_canary(int idx)
+{
+  const cc_channel *c = &VBI.cc.channel[idx];
+  uint64_t rw[COLUMNS], acc = 0; int p, i;
+  for (p = 0; p < 2; p++) {
+    memcpy(rw, &c->pg[p].text[ROWS * COLUMNS], sizeof rw);
+#ifdef KNOWN_CR_CLEARS_35_CELLS
+    for (i = 1; i < COLUMNS; i++) acc |= rw[i];
+#else
+    for (i = 0; i < COLUMNS; i++) acc |= rw[i];
+#endif
+  }
+  V_ASSERT(acc == 0, "frame_no_write_behind_row_15");
+}
+
+/* ======================================================================================================
  * 4. steps
  * ====================================================================================================== */
 #define ODD7(x) ((((x) ^ ((x) >> 1) ^ ((x) >> 2) ^ ((x) >> 3) ^ ((x) >> 4) ^ ((x) >> 5) ^ ((x) >> 6)) & 1) ? 0 : 0x80)
@@ -643,6 +690,10 @@ static void after_step(unsigned b1, unsigned b2)
 {
   ref_step(b1, b2);
   V_ASSERT(!c08_mutex_held(&VBI.cc.mutex), "mutex_released");
+  check_channel(CH & 3);
+#if CMP_TEXT
+  check_channel((CH & 3) + 4);
+#endif
 #ifndef PROBE_NOCMP
   if (!RC.lag) compare_page(&RC, 0, RC.rows);
 #endif
@@ -673,6 +724,8 @@ static void step(uint8_t b1, uint8_t b2) { lib_feed(b1, b2); after_step(b1, b2);
 #define S_MR(code) S_CTL(1, 0x20 | (code))
 #define S_SP(code) S_CTL(1, 0x30 | (code))
 #define S_NUL step(0x80, 0x80)
+/* literal text pair (keeps the cursor column concrete: cheap positioning) */
+#define S_LIT(a, b) step(ODD(a), ODD(b))
 /* control code whose second byte arrives with a parity error (must be ignored) */
 #define S_CTLBAD(k, c2) step(CTL1(k), (uint8_t) (ODD(c2) ^ 0x80))
 #define S_MISCBAD(c2) S_CTLBAD(4 | CTRL_F, c2)
@@ -689,6 +742,10 @@ static void step(uint8_t b1, uint8_t b2) { lib_feed(b1, b2); after_step(b1, b2);
  * ones.  The split is an if / else-if CHAIN: every call starts from the state before the split (sequential ifs would run
  * the later calls on the merged, no longer concrete state). */
 #define X_CASE(i, b1, b2) else if (sel_ == (unsigned) (i)) { lib_feed((b1), (b2)); s1_ = (b1); s2_ = (b2); }
+/* the last case is unconditional: then every path through the chain assigns e.g. ch->line, and where all assign the same
+   constant the merge folds back to that constant (a residual "no case taken" path would leave an if-then-else behind) */
+#define X_LAST(b1, b2) else { lib_feed((b1), (b2)); s1_ = (b1); s2_ = (b2); }
+#define X_CASE15(i, b1, f) X_CASE4(i, b1, f) X_CASE4((i) + 4, b1, f) X_CASE4((i) + 8, b1, f) X_CASE((i) + 12, b1, f((i) + 12)) X_CASE((i) + 13, b1, f((i) + 13)) X_CASE((i) + 14, b1, f((i) + 14)) X_LAST(b1, f((i) + 15))
 #define X_CASE4(i, b1, f) X_CASE(i, b1, f(i)) X_CASE((i) + 1, b1, f((i) + 1)) X_CASE((i) + 2, b1, f((i) + 2)) X_CASE((i) + 3, b1, f((i) + 3))
 #define X_CASE16(i, b1, f) X_CASE4(i, b1, f) X_CASE4((i) + 4, b1, f) X_CASE4((i) + 8, b1, f) X_CASE4((i) + 12, b1, f)
 
@@ -697,7 +754,7 @@ static void step(uint8_t b1, uint8_t b2) { lib_feed(b1, b2); after_step(b1, b2);
 static void step_pacx(unsigned rc)
 {
   unsigned s1_ = 0, s2_ = 0; unsigned sel_ = in_u8() & 31; uint8_t a = CTL1(rc >> 1);
-  if (0) { } X_CASE16(0, a, PACX_B2) X_CASE16(16, a, PACX_B2)
+  if (0) { } X_CASE16(0, a, PACX_B2) X_CASE15(16, a, PACX_B2)
   after_step(s1_, s2_);
 }
 #define S_PACX(rc) step_pacx(rc)
@@ -705,14 +762,14 @@ static void step_pacx(unsigned rc)
 static void step_pacx_indent(unsigned rc)
 {
   unsigned s1_ = 0, s2_ = 0; unsigned sel_ = 16 + (in_u8() & 15); uint8_t a = CTL1(rc >> 1);
-  if (0) { } X_CASE16(16, a, PACX_B2)
+  if (0) { } X_CASE15(16, a, PACX_B2)
   after_step(s1_, s2_);
 }
 #define S_PACI(rc) step_pacx_indent(rc)
 static void step_pacx_colour(unsigned rc)
 {
   unsigned s1_ = 0, s2_ = 0; unsigned sel_ = in_u8() & 15; uint8_t a = CTL1(rc >> 1);
-  if (0) { } X_CASE16(0, a, PACX_B2)
+  if (0) { } X_CASE15(0, a, PACX_B2)
   after_step(s1_, s2_);
 }
 #define S_PACC(rc) step_pacx_colour(rc)
@@ -721,7 +778,7 @@ static void step_pacx_colour(unsigned rc)
 static void step_mrx(void)
 {
   unsigned s1_ = 0, s2_ = 0; unsigned sel_ = in_u8() & 15; uint8_t a = CTL1(1);
-  if (0) { } X_CASE16(0, a, MRX_B2)
+  if (0) { } X_CASE15(0, a, MRX_B2)
   after_step(s1_, s2_);
 }
 #define S_MRX step_mrx()
@@ -730,7 +787,7 @@ static void step_mrx(void)
 static void step_spx(void)
 {
   unsigned s1_ = 0, s2_ = 0; unsigned sel_ = in_u8() & 15; uint8_t a = CTL1(1);
-  if (0) { } X_CASE16(0, a, SPX_B2)
+  if (0) { } X_CASE15(0, a, SPX_B2)
   after_step(s1_, s2_);
 }
 #define S_SPX step_spx()
@@ -743,7 +800,7 @@ static void step_datax(void)
   if (0) { }
   X_CASE(0, m, ODD(0x21)) X_CASE(1, m, ODD(0x24)) X_CASE(2, m, ODD(0x28)) X_CASE(3, m, ODD(0x2C)) X_CASE(4, m, ODD(0x2E))
   X_CASE(5, m, ODD(0x22)) X_CASE(6, m, ODD(0x23)) X_CASE(7, x, ODD(0x21)) X_CASE(8, x, ODD(0x22)) X_CASE(9, x, ODD(0x23))
-  X_CASE(10, 0x80, 0x80)
+  X_LAST(0x80, 0x80)
   after_step(s1_, s2_);
 }
 #define S_DATAX step_datax()
@@ -759,8 +816,10 @@ V_HARNESS(h_cc_seq)
   SKEL;
   /* whole page at the end (rows the hints above did not name included) */
   if (!RC.lag) compare_page(&RC, 0, ROWS_ALL);
+  check_canary(CH & 3);
 #if CMP_TEXT
   if (!RT.lag) compare_page(&RT, 1, ROWS_ALL);
+  check_canary((CH & 3) + 4);
 #endif
   V_ASSERT(n_compared <= 64, "sanity");
   if (n_compared >= 1) V_REACH("compared");
@@ -874,8 +933,9 @@ V_HARNESS(h_cc_itv)
   VBI.cc.itv_count = cnt0;
   mask = in_u32(); VBI.event_mask = (int) mask;
   c = in_u8(); V_ASSUME(c < 0x80); ch_ = (char) c;
-  n0 = c08_trig_n;
+  n0 = c08_trig_n; VBI.cc.xds = 0x5A5A; VBI.cc.info_cycle[0] = 0x3C3C;
   itv_separator(&VBI, &VBI.cc, ch_);
+  V_ASSERT(VBI.cc.xds == 0x5A5A && VBI.cc.info_cycle[0] == 0x3C3C, "itv_frame_neighbours_untouched");   /* members before itv_buf / after itv_count */
   V_ASSERT(VBI.cc.itv_count >= 0 && VBI.cc.itv_count <= 255, "itv_count_invariant");
   if (!(mask & VBI_EVENT_TRIGGER)) {
     V_ASSERT(VBI.cc.itv_count == cnt0 && c08_trig_n == n0, "itv_disabled_no_effect");
